@@ -19,11 +19,18 @@ type c13OSection struct {
 	Weight  int          `dials:"weight"`
 }
 
+// (an ARRAY of structs: every element is read, not only the last)
+type c13Rep struct {
+	Host string `dials:"host"`
+	Port int    `dials:"port"`
+}
+
 type c13OCfg struct {
-	Name    string        `dials:"name"`
-	Peers   c10Endpoints  `dials:"peers"`
-	Section c13OSection   `dials:"section"`
-	Opt     *c10Endpoints `dials:"opt"`
+	Name     string        `dials:"name"`
+	Peers    c10Endpoints  `dials:"peers"`
+	Section  c13OSection   `dials:"section"`
+	Opt      *c10Endpoints `dials:"opt"`
+	Replicas [3]c13Rep     `dials:"replicas"`
 }
 
 func c13OpaqueText(c *Ctx, n int) {
@@ -35,7 +42,8 @@ func c13OpaqueText(c *Ctx, n int) {
 		peers := fmt.Sprintf("alpha:%d,beta:%d", a, b)
 		mirrors := fmt.Sprintf("m:%d", b)
 		opt := fmt.Sprintf("o:%d", a)
-		withOpt, withSection := r.Bool(), r.Bool()
+		withOpt, withSection, withReps := r.Bool(), r.Bool(), r.Chance(60)
+		tmTail := ""
 		docs := map[string]string{}
 		{
 			var js, ym, tm, cu []string
@@ -43,6 +51,12 @@ func c13OpaqueText(c *Ctx, n int) {
 			ym = append(ym, "name: n", fmt.Sprintf("peers: %q", peers))
 			tm = append(tm, `name = "n"`, fmt.Sprintf("peers = %q", peers))
 			cu = append(cu, `name: "n"`, fmt.Sprintf("peers: %q", peers))
+			if withReps {
+				js = append(js, fmt.Sprintf(`"replicas":[{"host":"a","port":%d},{"host":"b","port":%d},{"host":"c","port":%d}]`, a, b, w))
+				ym = append(ym, fmt.Sprintf("replicas:\n  - {host: a, port: %d}\n  - {host: b, port: %d}\n  - {host: c, port: %d}", a, b, w))
+				cu = append(cu, fmt.Sprintf(`replicas: [{host: "a", port: %d}, {host: "b", port: %d}, {host: "c", port: %d}]`, a, b, w))
+				tmTail = fmt.Sprintf("[[replicas]]\nhost = \"a\"\nport = %d\n[[replicas]]\nhost = \"b\"\nport = %d\n[[replicas]]\nhost = \"c\"\nport = %d\n", a, b, w)
+			}
 			if withOpt {
 				js = append(js, fmt.Sprintf(`"opt":%q`, opt))
 				ym = append(ym, fmt.Sprintf("opt: %q", opt))
@@ -57,17 +71,31 @@ func c13OpaqueText(c *Ctx, n int) {
 			}
 			docs["json"] = "{" + strings.Join(js, ",") + "}"
 			docs["yaml"] = strings.Join(ym, "\n") + "\n"
-			docs["toml"] = strings.Join(tm, "\n") + "\n"
+			docs["toml"] = strings.Join(tm, "\n") + "\n" + tmTail
 			docs["cue"] = strings.Join(cu, "\n") + "\n"
 		}
 		want := fmt.Sprintf("name=n peers=%v section={%v %d} opt=%v", c10Endpoints{{"alpha", a}, {"beta", b}},
 			map[bool]any{true: c10Endpoints{{"m", b}}, false: c10Endpoints(nil)}[withSection], map[bool]int{true: w, false: 0}[withSection],
 			map[bool]any{true: c10Endpoints{{"o", a}}, false: "<nil>"}[withOpt])
-		for _, format := range []string{"json", "yaml", "toml", "cue"} {
-			cs := map[string]any{"stream": "text-unmarshalable named slice of structs", "format": format, "document": docs[format]}
+		if withReps {
+			want += fmt.Sprintf(" replicas=[a:%d b:%d c:%d]", a, b, w)
+		} else {
+			want += " replicas=<unset>"
+		}
+		for _, format := range []string{"json", "yaml", "toml", "cue", "json/raw", "yaml/raw", "toml/raw", "cue/raw"} {
+			// "/raw": the decoder used directly on the declared type (exported API; nothing is pointerified, so the array
+			// field is a bare array and the Transformer walks its elements)
+			raw := strings.HasSuffix(format, "/raw")
+			format = strings.TrimSuffix(format, "/raw")
+			typ, want := pt, want
+			if raw {
+				typ = reflect.TypeOf(c13OCfg{})
+				want = strings.Replace(want, "replicas=<unset>", "replicas=[:0 :0 :0]", 1)
+			}
+			cs := map[string]any{"stream": "text-unmarshalable named slice of structs, array of structs", "format": format, "document": docs[format], "declared_type_not_pointerified": raw}
 			var v reflect.Value
 			var err error
-			pn := catch(func() { v, err = c18Decoder(format).Decode(strings.NewReader(docs[format]), dials.NewType(pt)) })
+			pn := catch(func() { v, err = c18Decoder(format).Decode(strings.NewReader(docs[format]), dials.NewType(typ)) })
 			res.Count("opaque-text/" + format)
 			switch {
 			case pn != "":
@@ -80,7 +108,7 @@ func c13OpaqueText(c *Ctx, n int) {
 					res.Add(Finding{Kind: "violation", What: "decoded value differs from the data the document expresses", Case: cs, Expected: want, Observed: got})
 				}
 			}
-			res.Case(fmt.Sprintf("opaque-text|%s|%s", format, docs[format]), true, cs)
+			res.Case(fmt.Sprintf("opaque-text|%s|%v|%s", format, raw, docs[format]), true, cs)
 		}
 	}
 }
@@ -110,5 +138,31 @@ func c13OShow(v reflect.Value) string {
 		}
 		secText = fmt.Sprintf("{%v %v}", deref(sec.FieldByName("Mirrors")), wv)
 	}
-	return fmt.Sprintf("name=%v peers=%v section=%s opt=%v", deref(v.FieldByName("Name")), deref(v.FieldByName("Peers")), secText, deref(v.FieldByName("Opt")))
+	reps := "<unset>"
+	if rv := v.FieldByName("Replicas"); rv.Kind() == reflect.Ptr && !rv.IsNil() || rv.Kind() == reflect.Array {
+		for rv.Kind() == reflect.Ptr {
+			rv = rv.Elem()
+		}
+		var ps []string
+		for k := 0; k < rv.Len(); k++ {
+			e := rv.Index(k)
+			for e.Kind() == reflect.Ptr && !e.IsNil() {
+				e = e.Elem()
+			}
+			if e.Kind() != reflect.Struct {
+				ps = append(ps, "<nil>")
+				continue
+			}
+			h, p := deref(e.FieldByName("Host")), deref(e.FieldByName("Port"))
+			if h == "<nil>" {
+				h = ""
+			}
+			if p == "<nil>" {
+				p = 0
+			}
+			ps = append(ps, fmt.Sprintf("%v:%v", h, p))
+		}
+		reps = "[" + strings.Join(ps, " ") + "]"
+	}
+	return fmt.Sprintf("name=%v peers=%v section=%s opt=%v replicas=%s", deref(v.FieldByName("Name")), deref(v.FieldByName("Peers")), secText, deref(v.FieldByName("Opt")), reps)
 }
